@@ -145,30 +145,50 @@ def analyse(facts, tier):
                     why=('%s overwrites the entry of a bank that already exists with the blank template: its 128 instruments are lost' % over[0][1]) if over else 'banks are created through insert(), which returns an existing entry unchanged'))
 
     # ---- R2
-    for fn, name in ((rt, 'non-expanding'), (ex, 'expanding')):
-        # existing key: returned with false, before any allocation
-        found_first = False
-        alloc_pos = None
+    def mutators(fn):
+        """statements of an insert overload that take a slot or change the map"""
         for b, j, st in fn.cfg.stmts():
-            for x in calls_in(st['s']):
-                if short(callee_name(x)) == 'allocate_slot':
-                    alloc_pos = (b, j)
+            hit = None
+            for x in walk(st['s']):
+                if not isinstance(x, dict):
+                    continue
+                if short(callee_name(x) or '') in ('allocate_slot', 'ensure_allocate_slot', 'reserve', 'bucket_add'):
+                    hit = short(callee_name(x))
+                if is_incdec(x) and short(strip(x['e']).get('n', '')) == 'm_size':
+                    hit = '++m_size'
+            if hit:
+                yield b, j, st, hit
+    for fn, name in ((rt, 'non-expanding'), (ex, 'expanding')):
+        # existing key: nothing is allocated or linked unless the bucket search came back empty (however the function leaves: an
+        # early return with the found slot, or one exit with the insertion nested under `if(!slot)`)
         slot_ids = slot_locals(fn)
-        for b, j, st in fn.cfg.returns():
-            gf = guard_facts(fn, b, st)
-            if any(f[0] == 'truth' and f[2] and strip(f[1]).get('id') in slot_ids for f in gf) and alloc_pos and not fn.cfg.stmt_before(alloc_pos, (b, j)):
-                found_first = True
-        obls.append(Obl('C16.R2', fn.name, '%s insert returns the existing entry' % name, fn.loc, 'discharged' if found_first else 'finding',
-                        why='bucket_find hit -> return before a slot is taken' if found_first else 'an existing key is not returned before allocating: duplicate entries'))
+        ms = list(mutators(fn))
+        bad = [(st['loc'], hit) for b, j, st, hit in ms
+               if not any(f[0] == 'truth' and not f[2] and strip(f[1]).get('id') in slot_ids for f in guard_facts(fn, b, st))]
+        found_first = bool(ms) and not bad
+        obls.append(Obl('C16.R2', fn.name, '%s insert returns the existing entry' % name, bad[0][0] if bad else fn.loc, 'discharged' if found_first else 'finding',
+                        why='allocation and linking only under a failed bucket_find (%d statements)' % len(ms) if found_first else
+                        'an existing key is not returned before allocating: duplicate entries (%s is not guarded by the empty search result)' % (bad[0][1] if bad else 'nothing')))
+    # the non-expanding insert fails only when allocate_slot() returned NULL: with a slot in hand the entry is linked - the only
+    # conditions on the way to bucket_add are the two tests of the slot pointer
+    slot_ids = slot_locals(rt)
     fail = None
-    for b, j, st in rt.cfg.returns():
-        if any(short(callee_name(x)) == 'end' for x in calls_in(st['s'])):
-            gf = guard_facts(rt, b, st)
-            only_null = any(f[0] == 'truth' and not f[2] and strip(f[1]).get('id') in slot_locals(rt) for f in gf)
-            after_alloc = any(short(callee_name(x)) == 'allocate_slot' and rt.cfg.stmt_before((b2, j2), (b, j)) for b2, j2, st2 in rt.cfg.stmts() for x in calls_in(st2['s']))
-            fail = (st, only_null and after_alloc)
+    for b, j, st, hit in mutators(rt):
+        if hit != 'bucket_add':
+            continue
+        gf = guard_facts(rt, b, st)
+        def about_slot(f):
+            es = [f[1]] if f[0] == 'truth' else ([f[2], f[3]] if f[0] == 'cmp' else None)
+            if es is None:
+                return False
+            return any(isinstance(y, dict) and ((y.get('k') == 'DeclRefExpr' and y.get('id') in slot_ids) or short(callee_name(y) or '') == 'allocate_slot') for e_ in es for y in walk(e_)) and \
+                not any(isinstance(y, dict) and y.get('k') == 'MemberExpr' for e_ in es for y in walk(e_) if short(callee_name(y) or '') != 'allocate_slot')
+        foreign = [fact_str(f) for f in gf if not about_slot(f)]
+        has_alloc_test = any(about_slot(f) and ((f[0] == 'truth' and f[2]) or (f[0] == 'cmp' and f[1] == '!=')) for f in gf)
+        fail = (st, not foreign and has_alloc_test, foreign)
     obls.append(Obl('C16.R2', rt.name, 'fails only when allocate_slot() returned NULL', fail[0]['loc'] if fail else rt.loc, 'discharged' if fail and fail[1] else 'finding',
-                    why='return end() under !slot after allocate_slot()' if fail and fail[1] else 'the failing return is not tied to an empty free list'))
+                    why='the entry is linked whenever allocate_slot() gave a slot' if fail and fail[1] else
+                    'the failing return is not tied to an empty free list%s' % ((': linking also depends on ' + '; '.join(fail[2])[:80]) if fail and fail[2] else '')))
     for fn in (rt, ex):
         seq = []
         for b, j, st, s_, owner, bind in with_helpers(facts, fn):      # the common tail of the two overloads may be a private helper
@@ -206,7 +226,15 @@ def analyse(facts, tier):
                         rec(y)
                 elif isinstance(v, dict):
                     rec(v)
-    rec(gb.tree)
+    # the blank template may be built by a local helper of the creating function
+    fill_fns = [gb]
+    for src_ in (gb, gb_api):
+        for x in calls_in(src_.tree):
+            for cf in facts.fns.get(callee_name(x), [])[:1]:
+                if is_local_helper(src_, cf) and cf not in fill_fns:
+                    fill_fns.append(cf)
+    for ff in fill_fns:
+        rec(ff.tree)
     okl = False
     for l in loops:
         c = strip(l['cond'])
@@ -216,7 +244,7 @@ def analyse(facts, tier):
                 if ap and short(strip(ap[0]).get('n', '')) == 'flags' and const_of(ap[1]) == E.get('Flag_NoSound') and mentions(ap[0], lambda y: y.get('k') == 'ArraySubscriptExpr' and y.get('ext') == 128):
                     okl = True
     obls.append(Obl('C16.R4', gb.name, 'all 128 entries marked Flag_NoSound', gb.loc, 'discharged' if okl else 'finding', why='for i < 128: ins[i].flags = Flag_NoSound' if okl else 'a created bank is not filled with blank entries'))
-    zero = any(short(callee_name(x)) in ('memset', '__builtin_memset') and const_of(x['a'][1]) == 0 for b, j, st in gb.cfg.stmts() for x in calls_in(st['s']))
+    zero = any(short(callee_name(x)) in ('memset', '__builtin_memset') and const_of(x['a'][1]) == 0 for ff in fill_fns for b, j, st in ff.cfg.stmts() for x in calls_in(st['s']))
     obls.append(Obl('C16.R4', gb.name, 'new bank zero-initialised', gb.loc, 'discharged' if zero else 'finding', why='memset(&value.second, 0, sizeof)'))
 
     # ---- R5
@@ -244,6 +272,19 @@ def analyse(facts, tier):
     nulls = any(assign_parts(x) and 'm_buckets' in show(assign_parts(x)[0]) and (const_of(assign_parts(x)[1]) == 0 or strip(assign_parts(x)[1]).get('k') in ('GNUNullExpr', 'CXXNullPtrLiteralExpr')) for b, j, st in cl.cfg.stmts() for x in walk(st['s']))
     zero = any(assign_parts(x) and short(strip(assign_parts(x)[0]).get('n', '')) == 'm_size' and const_of(assign_parts(x)[1]) == 0 for b, j, st in cl.cfg.stmts() for x in walk(st['s']))
     nb = E.get('hash_buckets')
+    # .. or all bucket heads at once: std::fill(buckets, buckets + hash_buckets, NULL) / fill_n / memset over the bucket table
+    al_cl = alias_defs(cl.d)
+    for b, j, st in cl.cfg.stmts():
+        for x in calls_in(st['s']):
+            sn_ = short(callee_name(x))
+            a_ = [subst(y, al_cl) for y in (x.get('a') or [])]
+            if sn_ == 'fill' and len(a_) == 3 and 'm_buckets' in show(a_[0]) and 'm_buckets' in show(a_[1]) and any(isinstance(y, dict) and const_of(y) == nb for y in walk(a_[1])) and \
+                    (const_of(a_[2]) == 0 or any(isinstance(y, dict) and y.get('k') in ('GNUNullExpr', 'CXXNullPtrLiteralExpr') for y in walk(a_[2]))):
+                nulls = True
+            if sn_ == 'fill_n' and len(a_) == 3 and 'm_buckets' in show(a_[0]) and const_of(a_[1]) == nb and (const_of(a_[2]) == 0 or any(isinstance(y, dict) and y.get('k') in ('GNUNullExpr', 'CXXNullPtrLiteralExpr') for y in walk(a_[2]))):
+                nulls = True
+    if not nulls:
+        nulls = any(assign_parts(x) and 'm_buckets' in show(subst(assign_parts(x)[0], al_cl)) and (const_of(assign_parts(x)[1]) == 0 or strip(assign_parts(x)[1]).get('k') in ('GNUNullExpr', 'CXXNullPtrLiteralExpr')) for b, j, st in cl.cfg.stmts() for x in walk(st['s']))
     ok = hb is not None and hb == nb and frees and nulls and zero
     obls.append(Obl('C16.R5', cl.name, 'every slot of every bucket freed, heads and size zeroed', cl.loc, 'discharged' if ok else 'finding',
                     why='loop over %s buckets' % hb if ok else 'clear is incomplete (buckets %s/%s, frees=%s, heads=%s, size=%s)' % (hb, nb, frees, nulls, zero)))
@@ -542,6 +583,30 @@ def analyse(facts, tier):
         # down-counting with explicit decrement: for(i = N; i > 0; --i) ... [i - 1]
         if is_need(init_e) and c.get('k') == 'BinaryOperator' and c['op'] == '>' and const_of(c['r']) == 0 and is_iv(c['l']) and idx_minus1:
             okr = True
+        # pointer walks over the new slab: for(cur = first + N; cur != first;) free_slot(--cur);   /   for(cur = first; cur != first + N; ++cur) free_slot(cur);
+        sd_rs = single_defs(rs.d)
+        def base_plus_need(e):
+            e = strip(subst(strip(e), {k_: v_ for k_, v_ in sd_rs.items() if k_ != iv_id})) if e is not None else None
+            if e is not None and e.get('k') == 'BinaryOperator' and e.get('op') == '+':
+                for a_, b_ in ((e['l'], e['r']), (e['r'], e['l'])):
+                    if is_need(b_):
+                        return show(strip(a_))
+            return None
+        def plain(e):
+            return show(strip(subst(strip(e), {k_: v_ for k_, v_ in sd_rs.items() if k_ != iv_id}))) if e is not None else None
+        fs_arg = None
+        for x in walk(l.get('body')):
+            if short(callee_name(x)) == 'free_slot' and x.get('a'):
+                fs_arg = strip(x['a'][0])
+        if iv_id is not None and c.get('k') == 'BinaryOperator' and c['op'] == '!=' and is_iv(c['l']) and fs_arg is not None:
+            if base_plus_need(init_e) is not None and base_plus_need(init_e) == plain(c['r']) and l.get('inc') is None and \
+                    is_incdec(fs_arg) and fs_arg['op'] == '--' and not fs_arg.get('post') and is_iv(fs_arg['e']):
+                okr = True
+            inc_ = strip(l['inc']) if l.get('inc') is not None else None
+            if init_e is not None and base_plus_need(c['r']) is not None and base_plus_need(c['r']) == plain(init_e) and \
+                    ((is_iv(fs_arg) and inc_ is not None and is_incdec(inc_) and inc_['op'] == '++' and is_iv(inc_['e'])) or
+                     (inc_ is None and is_incdec(fs_arg) and fs_arg['op'] == '++' and fs_arg.get('post') and is_iv(fs_arg['e']))):
+                okr = True
     cap = need_id is not None
     obls.append(Obl('C16.R6', rs.name, 'every new slot goes to the free list; capacity grows by the same count', rs.loc, 'discharged' if (okr and cap) else 'finding',
                     why=form if (okr and cap) else 'cannot establish that all `need` new slots are handed to the free list while the capacity grows by `need` (%s)' % form))
